@@ -184,7 +184,7 @@ def run(ctx, prop):
             "C09": (["AnalysisDb_c09_q", "AnalysisDb_c09_q2"],
                     ["AnalysisDb_c09_t", "AnalysisDb_c09_t2", "AnalysisDb_c09_t3"]),
             "C10": (["AnalysisDb_c10_q", "AnalysisDb_c10_q2"],
-                    ["AnalysisDb_c10_t", "AnalysisDb_c10_t2"])}[prop]
+                    ["AnalysisDb_c10_t", "AnalysisDb_c10_t2", "AnalysisDb_c10_t3"])}[prop]
     cfgs = ctx.pick(*tier)
     results = run_tlc_many(ctx, cfgs, workers_each=ctx.pick(1, 2), timeout=ctx.pick(900, 2400))
     vlib.build(["vh-analysis"])
